@@ -763,4 +763,19 @@ def _register_shared():
          cases=[dict(cls=c, given=True, degrees=d, opt=o) for c in ("DataFrameReader", "FitsReader", "HDFReader", "ParquetReader") for d in (False, True) for o in (False, True)])(_C18.u_reader_init)
 
 
-_register_shared()
+# _register_shared() is called by the driver after this module is fully imported (no import cycles)
+
+
+
+# the public constructors forward every argument to the layer that uses it (C18 unit, run here as well)
+def _register_shared_args():
+    from . import C18 as _C18
+    from . import C05 as _C05
+    # the (re)opened catalog: patch id i is the patch stored in directory patch_<i>, for every order in which the patches are loaded
+    unit(P, "load_patches", fuc=["yaw.catalog.catalog:load_patches", "yaw.catalog.catalog:get_id_from_patch_path"],
+         cases=[dict(centers=False), dict(centers=True), dict(centers="catalog")], trusted=["iter_unordered contract"])(_C05.u_load_patches)
+    unit(P, "Catalog.from_*.arguments", fuc=["yaw.catalog.catalog:Catalog.from_dataframe", "yaw.catalog.catalog:Catalog.from_file", "yaw.catalog.catalog:Catalog.from_random"],
+         cases=[dict(which=w, mode=m) for w in ("from_dataframe", "from_file", "from_random") for m in ("apply", "divide", "create") if not (w == "from_random" and m == "divide")])(_C18.u_from_args)
+
+
+# _register_shared_args() is called by the driver after this module is fully imported (no import cycles)
